@@ -228,3 +228,30 @@ Theorem C05_segments_of_a_write_on_queue_first_routes :
     t_next_out (get_tcp w' s) = t_next_out (get_tcp w s) + Z.of_nat (length ps).
 Proof. exact write_segments_on_queue_first_routes. Qed.
 Print Assumptions C05_segments_of_a_write_on_queue_first_routes.
+
+(* ---- and the receiver's refinement lemma with no hypothesis about the network: when the
+   acknowledgement's route starts with a queue, incoming_packet computes rx_arrive on the
+   socket's own receive state ---- *)
+Theorem C05_forwarding_into_a_queue_keeps_every_receive_state :
+  forall v f now p w h rest q,
+  p_hops p = h :: rest -> mget SNone (w_sinks w) h = SQueue q ->
+  same_rx w (fst (forward v (S f) now p w)).
+Proof. exact forward_into_a_queue_keeps_receive_state. Qed.
+Print Assumptions C05_forwarding_into_a_queue_keeps_every_receive_state.
+
+Theorem C05_incoming_packet_is_rx_arrive_on_queue_first_routes :
+  forall v now s p w ci h rest q,
+  p_type p = PPayload \/ p_type p = PError -> t_chan (get_tcp w s) = Some ci ->
+  chan_hops (get_chan w ci) (remote_idx (get_chan w ci) (t_bound (get_tcp w s))) = h :: rest ->
+  mget SNone (w_sinks w) h = SQueue q ->
+  let cx := mkcx v now in
+  let r' := rx_arrive (rx_of (get_tcp w s)) p in
+  exists w1 c1 t1,
+    rx_of t1 = rx_of (get_tcp w s) /\ get_tcp w1 s = t1 /\
+    let t' := t1 <| t_next_in := rx_next r' |> <| t_inq := rx_inq r' |> <| t_reorder := rx_ro r' |> in
+    tcp_incoming cx s p w =
+      if p_seq p =? t_next_in (get_tcp w s)
+      then (fst (tcp_maybe_wakeup_reader cx s (set_tcp w1 s t')), c1 ++ snd (tcp_maybe_wakeup_reader cx s (set_tcp w1 s t')))
+      else (set_tcp w1 s t', c1).
+Proof. exact tcp_incoming_is_rx_arrive_on_queue_first_routes. Qed.
+Print Assumptions C05_incoming_packet_is_rx_arrive_on_queue_first_routes.
